@@ -118,7 +118,7 @@ def main():
     chk.cov["cases_rejected_by_rustc"] = len(dropped)
     chk.cov["distinct_nontrivial"] = len({json.dumps(c["in"], sort_keys=True) for c in sel if c["case"] not in dropped and c["l1"]["declared"]})
     chk.cov["rule"] = ("fn inputs: every subset of {B1,B2,B3} x {inline, where, impl Trait, split}; 2-function modules: bound sets "
-                       "per function x forms (quick: seeded sample of 500 modules); x by-ref/by-value per function x 6 mock settings x feature; 14 probes per case "
+                       "per function x forms (quick: seeded sample of 500 modules); x by-ref/by-value per function x 6 mock settings and `?Send` x feature; 14 probes per case "
                        "(7 probe types x bare / Impl<P>); non-trivial = compiled and at least one declared bound")
     chk.cov["exhaustive"] = bool(thorough)
     chk.cov["samples"] = [{"in": c["in"], "attr": c["attr"], "observed": {k[1]: v for k, v in observed.items() if k[0] == c["case"]}}
